@@ -15,11 +15,6 @@ static gen::GpCounters g_gc;
 static const int64_t kGeoMax = (int64_t)1 << 40;   // G claims: rounding term of tol < 0.25
 static const int64_t kBoxMax = (int64_t)1 << 52;   // S3 premise
 
-static bool axis_parallel(const Paths64& pp) {
-  for (auto& p : pp) { size_t n = p.size(); for (size_t i = 0; i < n; ++i) { const Point64& a = p[i]; const Point64& b = p[(i + 1) % n]; if (a.x != b.x && a.y != b.y) return false; } }
-  return true;
-}
-
 static void add_tally(Ctx& ctx, const c03::Tally& t, bool geo) {
   ctx.count("s_paths_checked", t.paths);
   ctx.count("s_vertices_checked", t.vertices);
@@ -52,7 +47,7 @@ static void judge(Ctx& ctx, const Case& c, bool from_replay) {
   bool geo = false;
   if (O.empty() && M <= kGeoMax) {
     if (cls == "gp") geo = !from_replay || general_position(closed_in, M);   // generator applied the same exact filter
-    else if (cls == "rect") geo = axis_parallel(closed_in);
+    else if (cls == "rect") geo = c03::is_axis_parallel(closed_in);                   // exact: every edge horizontal or vertical
   }
   bool s3 = M <= kBoxMax;
   ld tol = tol_of(M);
@@ -109,7 +104,12 @@ static void judge(Ctx& ctx, const Case& c, bool from_replay) {
   }
   add_tally(ctx, t, geo);
   if (!good) {
+    // narrow class of the HI_PRECISION rounding defect (see findings/c03_hp_bbox_rounding.txt): the un-clamped
+    // GetSegmentIntersectPt of that build lands one unit outside the box when |coord| is 2^44 or more
+    if (f.claim == c03::kS3 && f.tags[0] == "outside_by_1" && ctx.cfg_name == "hp" && M >= ((int64_t)1 << 44))
+      f.tags.insert(f.tags.begin(), "hp_build+outside_by_1+M_ge_2^44");
     f.tags.push_back("cls_" + cls);
+    f.tags.push_back("build_" + ctx.cfg_name);
     ctx.violation(f.claim, f.tags, c, f.detail + " [cls=" + cls + " ct=" + std::to_string(ct) + " fr=" + std::to_string(fr) +
                   " pc=" + std::to_string(pc) + " rev=" + std::to_string(rev) + " M=" + std::to_string(M) + "]");
   }
